@@ -91,7 +91,10 @@ func vhPaging(q int, n int, symbolicIDs bool, filterKinds []int) {
 	s := vhServer()
 	ids := make([]string, n)
 	for i := 0; i < n; i++ {
-		if symbolicIDs {
+		if symbolicIDs && (q == 5 || q == 6) {
+			// SEARCH values: a symbolic byte and a distinguishing suffix, so that several values can share a prefix
+			ids[i] = vnondetStringN(1) + vhDigits[i]
+		} else if symbolicIDs {
 			ids[i] = vnondetStringN(1)
 			for j := 0; j < i; j++ {
 				vassume(ids[i] != ids[j])
@@ -141,7 +144,7 @@ func vhPaging(q int, n int, symbolicIDs bool, filterKinds []int) {
 	case 6:
 		filter = []string{"WHERE", "f", "0", "1", "MATCH", vnondetStringN(1) + "*"}
 	}
-	limit := 1 + vchoose(n+3)
+	limit := 1 + vchoose(n+1)
 
 	res, _, err := vhDo(s, vhQuery(q, append([]string{"LIMIT", "11"}, filter...))...)
 	if err != nil {
@@ -178,7 +181,7 @@ func VH_C11_paging_spatial() {
 	vhPaging(q, n, false, []int{0, 1, 2, 4, 5})
 }
 
-//verif:cfg quick.b_objects=3 thorough.b_objects=4 b_values=1_symbolic_byte_each b_other_objects=0..2_geometries_in_the_same_collection b_filter=none|MATCH_X*|WHERE_range|WHEREIN b_limit=1..n+1 b_queries=SEARCH,SEARCH_DESC
+//verif:cfg quick.b_objects=3 thorough.b_objects=4 b_values=1_symbolic_byte+a_suffix_each(prefixes_may_coincide) b_other_objects=0..2_geometries_in_the_same_collection b_filter=none|MATCH_X*|WHERE_range|WHEREIN b_limit=1..n+1 b_queries=SEARCH,SEARCH_DESC
 func VH_C11_paging_search() {
 	n := 3
 	if vthorough() {
